@@ -39,6 +39,8 @@ func (lw *lineWriter) write(v any) {
 }
 func (lw *lineWriter) close() { lw.w.Flush(); lw.f.Close() }
 
+func readFile(p string) ([]byte, error) { return os.ReadFile(p) }
+
 func argInt(s string) int {
 	n, err := strconv.Atoi(s)
 	if err != nil {
@@ -209,6 +211,12 @@ func main() {
 		cmdRec(os.Args[2:])
 	case "split":
 		cmdSplit(os.Args[2:])
+	case "store-gen":
+		cmdStoreGen(os.Args[2:])
+	case "store-rand":
+		cmdStoreRand(os.Args[2:])
+	case "store-replay":
+		cmdStoreReplay(os.Args[2:])
 	default:
 		die(2, "unknown command %s", os.Args[1])
 	}
